@@ -172,7 +172,7 @@ public:
             host[idxDim] = getTreeCoordinate( inPos[idxDim] - configuration.getBoxCorner()[idxDim], idxDim);
         }
 
-        return Morton2Hilbert(getIndexFromBoxPos(host));
+        return getIndexFromBoxPos(host);
     }
 
     std::array<RealType,Dim> getRealPosFromBoxPos(const std::array<long int,Dim>& inPos) const {
